@@ -40,3 +40,27 @@ Proof.
   intros V M R O. apply C15_selects_text_proof; [|exact O].
   rewrite (raw_lex_pieces ps V M). exact R.
 Qed.
+
+Lemma unterminated_text_pieces ps items p :
+  forallb valid_piece_d ps = true -> not_merged ps = true ->
+  map rtok_of_piece ps = render_items items ++ render_partial p ->
+  items_ok items = true -> partial_ok p = true ->
+  filter not_pp (prep_text (render ps))
+  = map deliver (snd (select [] items) ++ select_partial (fst (select [] items)) p)
+    ++ [(T_Error, 0, Some (ErrPrep PEUnterminated)); eof_entry].
+Proof.
+  intros V M R O PO. rewrite prep_text_run, (raw_lex_pieces ps V M), R.
+  apply C15_unterminated_proof; assumption.
+Qed.
+
+Lemma missing_name_text_pieces ps items dir gap rest :
+  forallb valid_piece_d ps = true -> not_merged ps = true ->
+  map rtok_of_piece ps = render_items items ++ dir :: gap ++ rest ->
+  items_ok items = true -> missing_name dir gap rest = true ->
+  exists pre len post,
+    prep_text (render ps) = pre ++ (T_Error, len, Some (ErrPrep (missing_name_err dir))) :: post
+    /\ filter not_pp pre = map deliver (snd (select [] items)).
+Proof.
+  intros V M R O MN. rewrite prep_text_run, (raw_lex_pieces ps V M), R.
+  apply C15_missing_name_proof; assumption.
+Qed.
